@@ -21,7 +21,8 @@ Modelling notes
   ends in `return None`), so the model inspects T first and reads L/V of the NDEF TLV after the
   walk has stopped at it (`walkPre` then `readNdef`).
 * F1 (empty message -> `UnboundLocalError`) and F3 (`_format` terminator) are modelled
-  as REPAIRED (fixes/C01, fixes/C03); F2 (torn 3-byte length field) is modelled AS FOUND.
+  as REPAIRED (fixes/C01, fixes/C03); F2 (torn 3-byte length field, C02) and the 3-byte length
+  field written over a reserved byte (C03, `Hdr3`) are modelled AS FOUND.
 -/
 namespace NfcVerif.Tlv
 
